@@ -291,6 +291,26 @@ func bases(thorough bool) []base {
 	out = append(out, base{`{"$id":"http://h/root.json","$ref":"mid.json#/$defs/alias","$defs":{"mid":{"$id":"mid.json","$defs":{"alias":{"$ref":"list.json"},"elem":{"$dynamicAnchor":"T","type":"integer"}}},"list":{"$id":"list.json","items":{"$dynamicRef":"#T"},"$defs":{"any":{"$dynamicAnchor":"T","type":"string"}}}}}`, ref.D2020, []string{`["x"]`, `[1,2]`}},
 		base{`{"$id":"http://h/root.json","$ref":"item.json#/$defs/value","$defs":{"item":{"$id":"item.json","$defs":{"value":{"type":"integer"}}}}}`, ref.D2020, nil},
 		base{`{"$id":"http://h/root.json","properties":{"v":{"$ref":"item.json#/$defs/value/items"}},"$defs":{"item":{"$id":"item.json","$defs":{"value":{"items":{"type":"integer"}}}},"other":{"$id":"other.json","$defs":{"x":true}}}}`, ref.D2020, []string{`{"v":"s"}`}})
+	// empty-object subschemas (a decoration turns them into non-empty ones) whose annotations a
+	// neighbouring unevaluated* keyword reads, and trivially false ones
+	for _, t := range []string{
+		`{"contains":{},"unevaluatedItems":false}`, `{"allOf":[{"contains":{}}],"unevaluatedItems":false}`, `{"contains":{},"minContains":2,"unevaluatedItems":{"type":"integer"}}`, `{"prefixItems":[{}],"unevaluatedItems":false}`,
+		`{"items":{},"unevaluatedItems":false}`, `{"properties":{"a":{}},"unevaluatedProperties":false}`, `{"additionalProperties":{},"unevaluatedProperties":false}`, `{"patternProperties":{"^a":{}},"unevaluatedProperties":false}`,
+		`{"if":{},"then":{"properties":{"a":{}}},"unevaluatedProperties":false}`, `{"anyOf":[{},{"required":["zz"]}],"unevaluatedProperties":false}`, `{"not":{"not":{}}}`, `{"propertyNames":{}}`, `{"dependentSchemas":{"a":{}},"unevaluatedProperties":false}`,
+		`{"additionalProperties":{"not":{}}}`, `{"items":{"not":{}}}`, `{"properties":{"a":{"not":{}}}}`, `{"unevaluatedProperties":{"not":{}}}`, `{"contains":{"not":{}},"minContains":0}`, `{"prefixItems":[{"not":{}}]}`, `{"propertyNames":{"not":{}}}`,
+	} {
+		out = append(out, base{t, ref.D2020, []string{`[1,"x",2]`, `[[1]]`, `{"a":1,"ab":2}`}})
+	}
+	// draft-07: $ref with siblings (the siblings are ignored, whatever decorates them)
+	n = 0
+	for _, t := range s07.List {
+		if strings.Contains(t, `"$ref"`) && strings.HasPrefix(t, "{") {
+			n++
+			if n%stride == 0 || strings.Contains(t, `"not":{}`) {
+				out = append(out, base{`{"$schema":"http://json-schema.org/draft-07/schema#",` + t[1:], ref.D07, []string{`[1,"x"]`, `["x",1,1]`, `{"a":"x"}`}})
+			}
+		}
+	}
 	// dynamic-scope chains and two-scope roots with everything embedded (no loader)
 	k := 0
 	take := func(u *gen.Universe) {
@@ -323,7 +343,7 @@ func Run(r *ev.Run) {
 	bs := bases(thorough)
 	decos := decorations()
 	pool := drive.MkPool(gen.Vals(`null`, `true`, `0`, `1`, `1.5`, `-1`, `100`, `12345`, `""`, `"a"`, `"ab"`, `[]`, `[1]`, `[1,"a"]`, `[1,1]`, `[[1]]`, `{}`, `{"a":1}`, `{"a":"x"}`, `{"a":1,"b":2}`, `{"b":1}`, `{"zz":1}`, `{"a":{"a":1}}`, `{"p":[1,"x"]}`, `{"v":1}`, `{"v":"s"}`, `[1,"x"]`, `{"p":["x"]}`, `"("`, `" "`, `"%"`, `"1.2.3"`, `"\"x\""`, `"1"`, `"eA=="`))
-	r.Rule("base schemas (G-schema/2020 P0+P1(+start of P2), G-schema/07 P0+P1 under the draft-07 $schema; quick every 5th; plus reference/dynamic-scope bases) x every object-valued subschema position x a decoration alphabet: the documented non-asserting keywords with values of every JSON type, unreferenced $defs/definitions entries, 11 unknown names x 7 values, numbers outside float64 (1e400, 20-digit integers) and schema-shaped objects as values of unknown keywords / default / examples, 24 format names, combinations of the content keywords, 14 keyword names of other drafts and dialects, and 51 letter-case variants of real keywords with values that would assert or be refused if matched. Unmarshal must accept the decorated document and the verdict vector over a 35-instance pool must equal the undecorated schema's. Non-trivial = a decorated document (distinct by construction)")
+	r.Rule("base schemas (G-schema/2020 P0+P1(+start of P2), G-schema/07 P0+P1 under the draft-07 $schema; quick every 5th; plus reference/dynamic-scope bases, bases with empty-object and trivially false subschemas next to unevaluated*, and the draft-07 $ref-with-siblings pool) x every object-valued subschema position x a decoration alphabet: the documented non-asserting keywords with values of every JSON type, unreferenced $defs/definitions entries, 11 unknown names x 7 values, numbers outside float64 (1e400, 20-digit integers) and schema-shaped objects as values of unknown keywords / default / examples, 24 format names, combinations of the content keywords, 14 keyword names of other drafts and dialects, and 51 letter-case variants of real keywords with values that would assert or be refused if matched. Unmarshal must accept the decorated document and the verdict vector over a 35-instance pool must equal the undecorated schema's. Non-trivial = a decorated document (distinct by construction)")
 	r.Assume("the undecorated verdict is the oracle (differential); correctness of that verdict is C01/C02's business", "ValidateDefaults is off; decorations are well-formed where they are schemas")
 	r.Set("bases", len(bs))
 	r.Set("decorations", len(decos))
